@@ -177,6 +177,8 @@ def run(oracles, trace=None, gen=None, rng=None, max_steps=40, vid_knobs=None, s
                 env.stats["faults"]["ragged"] += 1
         if vp and out["st"] != "skip":
             env.stats["faults"]["identity:" + vp["p"]] += 1
+        if rec.get("werr") and out.get("warning"):
+            env.stats["faults"]["warning:error"] += 1
         if rec["op"] == "park" and out["st"] == "ok":
             env.stats["faults"]["gc:defer"] += 1
         if rec["op"] == "collect":
